@@ -355,6 +355,12 @@ def check_lookup(case, ctx):
         mv_ = operations.translate(obj, [4.0, -2.0, 1.0][:d["dim"]])
         _ = [list(q) for q in mv_.ctrlpts]
         ctx.label("moved-copy-next-to-the-shape")
+    if d["kind"] == "surface" and len(d["P"]) % 3 == 0:
+        # the net was handed over in its documented 2-D form (rows of points along v, one row per u index)
+        nv_ = d["size"][1]
+        flat_ = build.homogeneous(d["P"], d["W"]) if d["rational"] else d["P"]
+        obj.ctrlpts2d = [[list(flat_[v_ + nv_ * u_]) for v_ in range(nv_)] for u_ in range(d["size"][0])]
+        ctx.label("net-set-through-ctrlpts2d")
     R = build.exact_from(d, obj)
     pdim = len(d["degree"])
     P = d["P"]
